@@ -49,7 +49,9 @@ def verify_in_worktree(wt, seed):
         if rc != 0:
             log["suite_out"] = out[-800:]
         shutil.copy(os.path.join(sd, "demo_test.go"), demo_dst)
-        rc, out = sh(f"go test -count=1 -race ./{demo_dir}" if "race" in open(demo_dst).read().lower() and meta.get("property") == "C12" else f"go test -count=1 ./{demo_dir}", cwd=wt)
+        tags = "-tags verif " if "go:build verif" in open(demo_dst).read() else ""
+        log["demo_tags"] = tags.strip()
+        rc, out = sh(f"go test -count=1 {tags}./{demo_dir}", cwd=wt) if tags else sh(f"go test -count=1 -race ./{demo_dir}" if "race" in open(demo_dst).read().lower() and meta.get("property") == "C12" else f"go test -count=1 ./{demo_dir}", cwd=wt)
         log["demo_fails_with_patch"] = rc != 0
         log["demo_with_patch_tail"] = out[-400:]
     finally:
@@ -58,7 +60,8 @@ def verify_in_worktree(wt, seed):
         sh("git checkout -- .", cwd=wt)
     shutil.copy(os.path.join(sd, "demo_test.go"), demo_dst)
     try:
-        rc, out = sh(f"go test -count=1 ./{demo_dir}", cwd=wt)
+        tags = "-tags verif " if "go:build verif" in open(demo_dst).read() else ""
+        rc, out = sh(f"go test -count=1 {tags}./{demo_dir}", cwd=wt)
         log["demo_passes_without_patch"] = rc == 0
         if rc != 0:
             log["demo_without_patch_tail"] = out[-400:]
